@@ -79,8 +79,10 @@ def one_run(dev, td, cfg, ref):
     orig_get = runner_mod._get
     orig_save = runner_mod.DataHandler.save_time_step
 
+    armed = {"on": not cfg.get("solved_before")}
+
     def upd(state, running_state, dt, **kw):
-        if cfg["where"] == "update" and not calls.get("fired") and state["step"] == cfg["p"]:
+        if armed["on"] and cfg["where"] == "update" and not calls.get("fired") and state["step"] == cfg["p"]:
             in_thermal = skipN > 0 and not calls.get("stage_main")
             if (cfg["stage"] == "thermal") == in_thermal:
                 calls["fired"] = True
@@ -89,7 +91,7 @@ def one_run(dev, td, cfg, ref):
 
     def save(self, state, data, running_state):
         calls["stage_main"] = True
-        if cfg["where"] == "writer":
+        if armed["on"] and cfg["where"] == "writer":
             calls["n"] += 1
             if calls["n"] - 1 == cfg["p"]:
                 raise exc_type("injected")
@@ -100,7 +102,7 @@ def one_run(dev, td, cfg, ref):
             calls["in_writer"] = False
 
     def get(item):
-        if cfg["where"] == "inner" and calls.get("in_writer"):
+        if armed["on"] and cfg["where"] == "inner" and calls.get("in_writer"):
             calls["n"] += 1
             if calls["n"] - 1 == cfg["p"]:
                 raise exc_type("injected")
@@ -112,6 +114,15 @@ def one_run(dev, td, cfg, ref):
     rec = dict(result=None, exc=None)
     sol = None
     try:
+        if cfg.get("solved_before"):
+            # history form: this solver object has already completed one undisturbed solve(); what it wrote then is, for the
+            # second solve, an existing file that must stay as it is
+            solver.solve()
+            for name in sorted(os.listdir(work)):
+                pre.setdefault(name, sha(os.path.join(work, name)))
+            calls.clear()
+            calls["n"] = 0
+            armed["on"] = True
         try:
             sol = solver.solve()
             rec["result"] = "None" if sol is None else "Solution"
@@ -196,7 +207,11 @@ def judge(rep, cfg, rec, ref_frames):
     exp = expected_labels(cfg["N"], cfg["k"], cfg["p"], cfg["kind"], cfg["where"], cfg["stage"])
     if rec["frames"] is not None:
         labels = [f["step"] for f in rec["frames"]]
-        if any(not f["complete"] for f in rec["frames"]):
+        if [f["idx"] for f in rec["frames"]] != list(range(len(rec["frames"]))):
+            rep.violation("the frames in the output are not numbered 0, 1, 2, ... (bookkeeping of a partial output: data_range / "
+                          "solve_step address frames by this number)", {**case, "frame_numbers": [f["idx"] for f in rec["frames"]],
+                                                                      "solved_before": bool(cfg.get("solved_before"))})
+        elif any(not f["complete"] for f in rec["frames"]):
             rep.violation("the output contains a half-written frame (bookkeeping or datasets missing)",
                           {**case, "frames": [(f["step"], f["complete"]) for f in rec["frames"]]})
         elif exp is not None and labels != exp:
@@ -357,6 +372,11 @@ def run(rep: common.Report, tier: str, seed: int, replay=None) -> int:
         for kind, p in (("err", 3), ("kbd", 4)):
             cfgs.append(dict(id=cid, N=N, k=3, p=p, kind=kind, where="update", stage="main", explicit=True, preexisting=[], name=nm_))
             cid += 1
+    # the same solver object solved once before (undisturbed), then stopped during its second solve
+    for k_, kind, p in ((1, "kbd", 3), (3, "kbd", 4), (3, "err", 2), (1, "err", 5), (N + 1, "kbd", 2)):
+        cfgs.append(dict(id=cid, N=N, k=k_, p=p, kind=kind, where="update", stage="main", explicit=True, preexisting=[],
+                         solved_before=True))
+        cid += 1
     with tempfile.TemporaryDirectory(prefix="pyt_c15_") as td:
         # fault-free reference: every step saved
         ref_opts = runs.make_options(None, solve_time=N * DT, dt_init=DT, dt_max=DT, adaptive=False, save_every=1,
@@ -370,7 +390,8 @@ def run(rep: common.Report, tier: str, seed: int, replay=None) -> int:
             rep.count(1)
             rep.nontrivial((cfg["k"], cfg["kind"], cfg["where"], cfg["stage"], cfg["explicit"], tuple(cfg["preexisting"]),
                             cfg["p"] % cfg["k"] == 0))
-            if cfg["where"] == "update" and cfg["stage"] == "main" and cfg["explicit"] and rec["frames"] is not None:
+            if cfg["where"] == "update" and cfg["stage"] == "main" and cfg["explicit"] and rec["frames"] is not None \
+                    and not cfg.get("solved_before"):
                 model_cases.append((cfg, [f["step"] for f in rec["frames"]], rec.get("out_name")))
     for c in cfgs[:3] + cfgs[-3:]:
         rep.sample({k_: c[k_] for k_ in ("N", "k", "p", "kind", "where", "stage", "explicit", "preexisting")})
